@@ -22,6 +22,9 @@ impl Monitor for C11 {
         // aggregate statements with a JOIN, fed line by line through the library API (no executor follows a join): only with a joined
         // file in which no join key occurs twice, so that every line has at most one partner - with two or more the unchanged tree
         // concatenates intermediate tables (open finding C11, pinned reproducer), which is not what these cases are about
+        // groups of 15-70 values that are mostly -0.0 / 0.0 under PERCENTILE: which of several equal values is shown must not depend
+        // on whether the group was sorted once or re-sorted at every refresh
+        if rng.chance(1, 12) { let z = rng.chance(2, 3); return gen_percentile_case(rng, 15, 70, z); }
         if rng.chance(1, 6) {
             let (mut case, _t, sel, _shape) = gen_base(rng, &BaseCfg { shapes: &[Shape::JoinAggregate], allow_limit: false, allow_having: true, agg_distinct: true, order_insensitive_only: false, exact_data: true, min_lines: 3, max_lines: 30, not_null_column: false, big_rate: 0, big_lines: 0 });
             let key = sel.join.as_ref().map(|j| j.right.1.clone()).unwrap_or_else(|| "k".into());
